@@ -117,6 +117,9 @@ def opts_fields(o):
 
 def compare(chk, cases, results, stream="css"):
     """cases: [(opts, css)], results: decoded harness answers. Returns number of differences."""
+    if not core.MODEL_OK:
+        chk.bump(f"corr:{stream}:skipped-model-unavailable", len(cases))
+        return 0
     reqs, idx = [], []
     for i, ((o, css), res) in enumerate(zip(cases, results)):
         if "panic" in res or "tokens_in" not in res:
